@@ -658,12 +658,13 @@ TABLE = {
 }
 
 
-# high-precision stratum (2500 / 3000 / 3500 bits) for the cheap functions
+# high-precision stratum (2500 / 3000 / 3500 bits) for the cheap functions (integer-order Y/K/I perturbation limits and the
+# Airy asymptotic side cost minutes at 10^4 bits and are left out)
+TABLE['besselj'] = TABLE['besselj'] + [HP(RG('hp/int-order/real-moderate', A(integer(-5, 12), uniform_bits(0.5, 30.0))))]
 for _f in ('besselj', 'bessely', 'besseli', 'besselk'):
-    TABLE[_f] = TABLE[_f] + [HP(RG('hp/int-order/real-moderate', A(integer(-5, 12), uniform_bits(0.5, 30.0)))),
-                             HP(RG('hp/real-order/real-moderate', A(real_in(-3, 3), uniform_bits(0.5, 30.0))))]
+    TABLE[_f] = TABLE[_f] + [HP(RG('hp/real-order/real-moderate', A(real_in(-3, 3), uniform_bits(0.5, 12.0))))]
 for _f in ('airyai', 'airybi'):
-    TABLE[_f] = TABLE[_f] + [HP(RG('hp/real/-10.5..4', A(uniform_bits(-10.5, 4.0)))), HP(RG('hp/real/4..30', A(uniform_bits(4.0, 30.0))))]
+    TABLE[_f] = TABLE[_f] + [HP(RG('hp/real/-10.5..4', A(uniform_bits(-10.5, 4.0))))]
 TABLE['struveh'] = TABLE['struveh'] + [HP(RG('hp/real-order/real-moderate', A(real_in(-3, 3), uniform_bits(0.5, 30.0))))]
 TABLE['besseljzero'] = TABLE['besseljzero'] + [HP(make_bessel_zero_cell('besseljzero', 1, 'hp/int-order/index-1..10', integer(0, 5), 1, 10, 0), tmax=30)]
 
